@@ -350,7 +350,7 @@ impl FileSpec {
                         .ok()
                 })
                 .max()
-                .map_or(0, |n| n + 1);
+                .map_or(0, |n| n.saturating_add(1));
 
             infix.to_string().add(&format!(".restart-{next_number:04}"))
         } else {
@@ -408,7 +408,10 @@ impl FileSpec {
                 .unwrap_or(stem);
         }
         let (base, restart) = match stem.split_once(".restart-") {
-            Some((base, number)) => (base, number.parse::<usize>().map_or(0, |n| n + 1)),
+            Some((base, number)) => (
+                base,
+                number.parse::<usize>().map_or(0, |n| n.saturating_add(1)),
+            ),
             None => (stem, 0),
         };
         let digits = base.rsplit_once('r').map_or(0, |(_, number)| {
